@@ -438,7 +438,7 @@ theorem mount_handle_is_dispatch (d : Decoders) (code : RErr → Nat) (nf : Nat)
     (pre path ptr : List Char) (fmt : Nat) (body : Bytes) (b : Option J)
     (hp : pointerFor pre path = some ptr) (hb : decodeBody d fmt body = .ok b) :
     reg.handleAt d code nf r pre path fmt body =
-      ((reg.dispatch r ptr b).1, respond code (reg.dispatch r ptr b).2) := by
+      ((reg.dispatch r ptr b).1, regRespond code (reg.dispatch r ptr b).2) := by
   simp [Reg.handleAt, hp, hb]
 
 /-- Through the mount, too, an empty body never mutates (whatever its format code), and neither does a
@@ -486,7 +486,7 @@ theorem routed_request_is_dispatch (rt : Router.Router) (path : List Char) (f : 
     (b : Option J) (hb : decodeBody d fmt body = .ok b) :
     ∃ ptr, pointerFor f.pre path = some ptr ∧
       reg.handleAt d code nf r f.pre path fmt body =
-        ((reg.dispatch r ptr b).1, respond code (reg.dispatch r ptr b).2) ∧
+        ((reg.dispatch r ptr b).1, regRespond code (reg.dispatch r ptr b).2) ∧
       ((f.pre = [] ∧ ptr = if path = [] then ['/'] else path) ∨ (f.pre ≠ [] ∧ path = f.pre ∧ ptr = ['/']) ∨
        (f.pre ≠ [] ∧ path ≠ f.pre ∧ path = f.pre ++ ptr ∧ ∃ rest, ptr = '/' :: rest)) := by
   have hne : f.coll ≠ .exact := by rw [hc]; decide
